@@ -1,11 +1,12 @@
 #!/bin/bash
-# ./recheck_seeded.sh [tier]  — apply every stored seeded change to /repo in turn, run the check(s) that
+# ./recheck_seeded.sh [tier] [glob]  — apply every stored seeded change to /repo in turn, run the check(s) that
 # should catch it, revert; writes /verif/seeded/<id>/recheck.log and prints a summary table.
 tier="${1:-quick}"
 cd /verif
 git -C /repo diff --quiet || { echo "/repo dirty"; exit 2; }
 declare -A EXTRA=( [C13-a1]="C08" [C07-a1]="C06" )
-for d in seeded/*/; do
+pat="${2:-*}"
+for d in seeded/$pat/; do
   id=$(basename $d); prop=${id%%-*}
   [ -f $d/patch.diff ] || continue
   if ! git -C /repo apply /verif/$d/patch.diff 2>/dev/null; then echo "$id: patch does not apply to current /repo HEAD"; continue; fi
